@@ -210,6 +210,57 @@ def main(run):
                  sample={"op": ["ecb_e+d", "ecb_d", "cbc_e+d", "cbc_d"][op], "key": key.hex(), "iv": iv.hex(), "blocks": nb, "kind": kind.__name__} if i < 3 else None)
         del before
 
+    # ---------------------------------------------------------------- concurrent callers
+    # "for every key, IV and message" does not depend on who else is encrypting: four threads (128-, 192-, 256- and 128-bit keys) run
+    # CBC encryption and decryption of their own messages at once, with a short switch interval so that a thread is preempted inside a
+    # block; every result is compared with the reference answer computed beforehand in one thread
+    import sys as _sys
+    import threading
+    n_rounds, n_blocks = run.n(12, 120), 40
+    jobs = []
+    for t in range(4):
+        key = bytes(rng.randrange(256) for _ in range((16, 24, 32, 16)[t]))
+        iv = bytes(rng.randrange(256) for _ in range(16))
+        data = bytes(rng.randrange(256) for _ in range(16 * n_blocks))
+        jobs.append((key, iv, data, R.cbc_encrypt(key, iv, data)))
+    enc = getattr(M.aes_cbc_encrypt, "__wrapped__", M.aes_cbc_encrypt)       # the functions themselves: the contracts' reference runs would
+    dec = getattr(M.aes_cbc_decrypt, "__wrapped__", M.aes_cbc_decrypt)       # serialise the threads
+    wrong = [[0, 0, None] for _ in jobs]
+    start = threading.Barrier(len(jobs))
+
+    def caller(t):
+        key, iv, data, exp_c = jobs[t]
+        start.wait()
+        for _ in range(n_rounds):
+            try:
+                c = enc(key, iv, data)
+                p = dec(key, iv, exp_c)
+            except Exception as e:
+                wrong[t][2] = f"{type(e).__name__}: {e}"
+                return
+            wrong[t][0] += sum(c[i:i + 16] != exp_c[i:i + 16] for i in range(0, len(exp_c), 16))
+            wrong[t][1] += sum(p[i:i + 16] != data[i:i + 16] for i in range(0, len(data), 16))
+
+    old_interval = _sys.getswitchinterval()
+    _sys.setswitchinterval(1e-5)
+    try:
+        threads = [threading.Thread(target=caller, args=(t,)) for t in range(len(jobs))]
+        for th in threads:
+            th.start()
+        for th in threads:
+            th.join()
+    finally:
+        _sys.setswitchinterval(old_interval)
+    for t, (we, wd, err) in enumerate(wrong):
+        key, iv, data, _ = jobs[t]
+        if err:
+            run.violation("C20:aes:concurrent-callers:raised", f"thread {t} ({8 * len(key)}-bit key): {err}", {"key": key.hex(), "iv": iv.hex(), "data": data.hex(), "threads": len(jobs)})
+        elif we or wd:
+            run.violation("C20:aes:concurrent-callers:differs-from-fips197", f"thread {t} ({8 * len(key)}-bit key): {we} encrypted and {wd} decrypted blocks of {n_rounds * n_blocks} differ from FIPS-197 while "
+                          f"{len(jobs) - 1} other threads use the module; the same calls alone are right", {"key": key.hex(), "iv": iv.hex(), "data": data.hex(), "threads": len(jobs)})
+        run.case(f"concurrent:{len(key)}:{'ok' if not (we or wd or err) else 'bad'}")
+    run.count("blocks_computed_by_concurrent_callers", 2 * len(jobs) * n_rounds * n_blocks)
+
     # ---------------------------------------------------------------- wrong lengths -> ValueError
     good_key = bytes(range(16))
     fns = [("aes_ecb_encrypt", lambda k, iv, d: M.aes_ecb_encrypt(k, d)), ("aes_ecb_decrypt", lambda k, iv, d: M.aes_ecb_decrypt(k, d)),
